@@ -8,8 +8,8 @@ from ..astutil import call_name, calls_in, dotted, name_stores, test_atoms, unpa
 from ..cfg import no_exc
 from ..report import Registry, sub
 from ._helpers_rules_c import (
-    PathSense, both, call_nodes, calls_ending, cut_edges, cut_normal_out, is_true, kw_or_pos,
-    loc_of, must_pass, own_calls, rcfg, test_edges,
+    PathSense, _ann_class, both, call_nodes, calls_ending, cut_edges, cut_normal_out, is_false, is_true,
+    kw_or_pos, loc_of, must_pass, outcome, own_calls, rcfg, test_edges,
 )
 
 R = Registry(
@@ -19,8 +19,12 @@ R = Registry(
         "reset-before-return shape of the check-in path: _finalize_fairy resets (or invalidates) before "
         "every check-in of a live connection; _ConnectionFairy._reset rolls back / commits under the "
         "configured reset style and skips only when the transaction was already reset; Connection.close "
-        "claims transaction_reset only after closing its transaction; every connection characteristic "
-        "that is set has a registered reset finaliser which check-in drains before returning the record."
+        "claims transaction_reset only after closing its transaction, and that claim is backed: the call "
+        "chain behind it (Transaction.close -> _do_close -> _close_impl -> _connection_rollback_impl -> "
+        "Connection._rollback*_impl, with dynamic dispatch over the transaction classes) reaches "
+        "dialect.do_rollback on every normal path except enumerated, justified bypasses (C24-R6); every "
+        "connection characteristic that is set has a registered reset finaliser -- registered on every path, "
+        "bound to the whole collection being applied -- which check-in drains before returning the record."
     ),
     not_decided="backend-visible transaction / isolation state; custom reset event handlers; reset_on_return=None.",
 )
@@ -165,7 +169,73 @@ def r3(ctx):
 
 
 # ---------------------------------------------------------------------- C24-R4
-@R.rule("C24-R4", floor=5, template="T-PATH",
+def _local_defs(fn, name):
+    return [v for nm, v, _ in name_stores(fn) if nm == name and v is not None]
+
+
+def _through_locals(fn, expr, depth=0):
+    """dotted text of `expr` with a leading local alias replaced by its (single) definition."""
+    d = dotted(expr)
+    if d is None or depth > 4:
+        return d
+    head, _, rest = d.partition(".")
+    defs = _local_defs(fn, head)
+    if len(defs) == 1:
+        base = _through_locals(fn, defs[0], depth + 1)
+        if base is not None:
+            return base + ("." + rest if rest else "")
+    return d
+
+
+def _ancestors(pm, node, stop):
+    out, cur = [], pm.get(node)
+    while cur is not None and cur is not stop:
+        out.append(cur)
+        cur = pm.get(cur)
+    return out
+
+
+def _root_names(fn, expr, seen=None):
+    """Names `expr` is computed from, followed through local definitions (transitively)."""
+    seen = set() if seen is None else seen
+    out = set()
+    for x in ast.walk(expr):
+        if isinstance(x, ast.Name) and isinstance(x.ctx, ast.Load) and x.id not in seen:
+            seen.add(x.id)
+            out.add(x.id)
+            for v in _local_defs(fn, x.id):
+                out |= _root_names(fn, v, seen)
+    return out
+
+
+_COPIES = {"list", "tuple", "set", "frozenset", "dict", "sorted", "immutabledict", "OrderedDict"}
+_VIEWS = {"keys", "items", "copy", "union"}
+
+
+def _covers(fn, expr, param, depth=0):
+    """Is `expr` the whole collection `param` (itself, a copy, its key view, an unfiltered comprehension
+    over it, or a local defined only as such)?"""
+    if depth > 5:
+        return False
+    if isinstance(expr, ast.Name):
+        if expr.id == param:
+            return True
+        defs = _local_defs(fn, expr.id)
+        return bool(defs) and all(_covers(fn, v, param, depth + 1) for v in defs)
+    if isinstance(expr, ast.Call):
+        nm = (call_name(expr) or "").rsplit(".", 1)[-1]
+        if nm in _COPIES and len(expr.args) == 1 and not expr.keywords:
+            return _covers(fn, expr.args[0], param, depth + 1)
+        if nm in _VIEWS and isinstance(expr.func, ast.Attribute) and not expr.args:
+            return _covers(fn, expr.func.value, param, depth + 1)
+        return False
+    if isinstance(expr, (ast.ListComp, ast.SetComp, ast.GeneratorExp, ast.DictComp)):
+        return len(expr.generators) == 1 and not expr.generators[0].ifs \
+            and _covers(fn, expr.generators[0].iter, param, depth + 1)
+    return False
+
+
+@R.rule("C24-R4", floor=6, template="T-PATH",
         desc="every set_connection_characteristic is paired with a registered _reset_characteristics "
              "finaliser (also when a later characteristic fails); checkin drains finalize_callback before "
              "_return_conn; __close clears it")
@@ -176,7 +246,9 @@ def r4(ctx):
     ctx.require(setc, "no set_connection_characteristic() call in _set_connection_characteristics")
 
     def is_register(nm, c):
-        if not nm.endswith("finalize_callback.append") and not nm.endswith("finalize_callback.appendleft"):
+        if nm.rsplit(".", 1)[-1] not in ("append", "appendleft") or not isinstance(c.func, ast.Attribute):
+            return False
+        if not (_through_locals(f.node, c.func.value) or "").endswith("finalize_callback"):
             return False
         return any(isinstance(x, ast.Attribute) and x.attr == "_reset_characteristics" for a in c.args for x in ast.walk(a))
     reg = call_nodes(g, is_register)
@@ -208,6 +280,34 @@ def r4(ctx):
                   "when a later set_connection_characteristic() raises, characteristics already set on the DBAPI "
                   "connection have no reset finaliser registered: the connection returns to the pool with them",
                   "finaliser registered before any characteristic can be left set", f.loc, bad)
+    # the finaliser resets (at least) every name this call applies: its bound argument is the whole collection
+    # the set loop is driven by, not a filtered / unrelated one
+    pm = f.module.parents()
+    params = set(f.params) - {"self", "cls"}
+    driven = set()
+    for n in setc:
+        st = g.nodes[n].stmt
+        loops = [a for a in _ancestors(pm, st, f.node) if isinstance(a, (ast.For, ast.AsyncFor))]
+        ctx.require(loops, "set_connection_characteristic() is no longer driven by a loop over the requested characteristics")
+        for lp in loops:
+            driven |= _root_names(f.node, lp.iter) & params
+    bound = []
+    for n in reg:
+        for c in calls_in(g.nodes[n].stmt):
+            if isinstance(c.func, (ast.Name, ast.Attribute)) and (call_name(c) or "").rsplit(".", 1)[-1] == "partial" \
+                    and c.args and isinstance(c.args[0], ast.Attribute) and c.args[0].attr == "_reset_characteristics":
+                bound.append(c)
+    if reg:
+        ctx.require(bound, "the _reset_characteristics finaliser is not registered as functools.partial(self._reset_characteristics, <names>)")
+        coll = driven
+        ctx.require(coll, "cannot tell which parameter of _set_connection_characteristics drives the set calls")
+        bad = [(unparse(b), p_) for b in bound for p_ in sorted(coll)
+               if not any(_covers(f.node, a, p_) for a in b.args[1:])]
+        ctx.check(not bad, f.key + ":finaliser-covers-set-names",
+                  "the reset finaliser is bound to something other than the complete collection that drives the "
+                  "set_connection_characteristic() calls: " + "; ".join(f"`{b}` does not cover `{p_}`" for b, p_ in bad)
+                  + " (a characteristic that is applied may never be reset)",
+                  "partial(_reset_characteristics, <the collection being applied>)", f.loc)
     # checkin drains the callbacks before returning the record
     fc = ctx.func(f"{POOL}::_ConnectionRecord.checkin")
     gc_ = ctx.cfg(fc)
@@ -310,6 +410,287 @@ def r5(ctx):
     ctx.require(n_entries, "no connection_characteristics dict entries found")
 
 
+# ---------------------------------------------------------------------- C24-R6
+# DBAPI-level calls that end the transaction on the pooled connection (meaning of the Dialect API)
+RESET_EFFECTS = {"do_rollback", "do_commit", "do_rollback_twophase", "do_commit_twophase"}
+CLAIM_KEYWORDS = ("transaction_reset", "transaction_was_reset")
+
+# Branch outcomes that may bypass the rollback although the pool is then told "already reset".
+SKIP_OK = {
+    f"{ENG}::Connection._rollback_impl:skips-reset[self._still_open_and_dbapi_connection_is_valid=False]":
+        "no live DBAPI connection behind the fairy (closed / invalidated): the fairy is finalised with "
+        "dbapi_connection None, nothing is reset and nothing live is returned to the pool",
+    f"{ENG}::Connection._rollback_twophase_impl:skips-reset[self._still_open_and_dbapi_connection_is_valid=False]":
+        "no live DBAPI connection behind the fairy (closed / invalidated): nothing live is returned to the pool",
+    # shape of the alternative fix for the `failing COMMIT, then close()` finding (see notes/str-j.md): _close_impl rolls
+    # back when `self.is_active or self.connection._transaction is self`.  The remaining bypass needs the second disjunct
+    # to be false, i.e. the transaction is no longer the connection's current one -- but Connection.close() only calls
+    # close() on `self._transaction`, the object RootTransaction.__init__ published as `connection._transaction` with
+    # `self.connection = connection` (no other non-None store exists: C23-R3), so it cannot be taken from there.
+    f"{ENG}::RootTransaction._close_impl:skips-reset[self.is_active=False, self.connection._transaction is self=False]":
+        "unreachable from Connection.close(): the transaction it closes is by construction connection._transaction",
+}
+
+
+def _is_reset_effect(call: ast.Call) -> bool:
+    nm = call_name(call) or ""
+    parts = nm.split(".")
+    return len(parts) >= 2 and parts[-1] in RESET_EFFECTS and parts[-2].lstrip("_") == "dialect"
+
+
+def _attr_class(ix, cls, attr):
+    """Declared class of `self.<attr>` (class-level annotation somewhere in the MRO), else None."""
+    for k in ix.mro(cls):
+        for st in k.node.body:
+            if isinstance(st, ast.AnnAssign) and isinstance(st.target, ast.Name) and st.target.id == attr:
+                r = _ann_class(ix, k.module, st.annotation)
+                if r is not None:
+                    return r
+    return None
+
+
+def _call_targets(ix, cls, call):
+    """[(concrete class, FuncInfo, receiver suffix)] for `self.m()` / `self.attr.m()` seen from the
+    concrete class `cls` (dynamic dispatch: the declared class of the attribute and its subclasses)."""
+    parts = (call_name(call) or "").split(".")
+    if parts[0] != "self" or len(parts) not in (2, 3):
+        return []
+    if len(parts) == 2:
+        t = ix.resolve_method(cls, parts[1])
+        return [(cls, t, "")] if t is not None else []
+    d = _attr_class(ix, cls, parts[1])
+    if d is None:
+        return []
+    out = []
+    for c in [d] + ix.subclasses(d):
+        t = ix.resolve_method(c, parts[2])
+        if t is not None:
+            out.append((c, t, "." + parts[1]))
+    return out
+
+
+def _rebase(txt: str, prefix: str) -> str:
+    if txt == "self" or txt.startswith("self."):
+        return prefix + txt[4:]
+    return txt
+
+
+class _ResetChain:
+    """Inter-procedural `does this call reach a transaction-ending DBAPI call on every normal path`.
+    A function is *capable* when it contains a reset effect or a call to a capable method; every
+    branch edge that commits a path to leave a capable function without passing such a node is
+    recorded as a *skip* (keyed by function + guard)."""
+
+    MAX_DEPTH = 8
+
+    def __init__(self, ctx):
+        self.ctx = ctx
+        self.skips = {}      # key -> dict(label, atoms, loc, path, fi, chain)
+        self.partial = {}    # key -> text (an override in the dispatch set that never resets)
+
+    def call_capable(self, cls, f, call, prefix, stack):
+        """Does `call` (inside method f, executed with self of concrete class cls) reach a reset effect?
+        With dynamic dispatch every candidate must; a candidate that never does is reported."""
+        tg = _call_targets(self.ctx.index, cls, call)
+        if not tg:
+            return False
+        res = [(C, t, self.capable(C, t, prefix + sfx, stack)) for C, t, sfx in tg]
+        if not any(r for _, _, r in res):
+            return False
+        for C, t, r in res:
+            if not r:
+                self.partial[f"{t.key}:never-resets[{C.name}]"] = (
+                    f"for a {C.name}, {t.qualname} (reached from {f.qualname} by dynamic dispatch) never "
+                    f"reaches {'/'.join(sorted(RESET_EFFECTS))}", t.loc)
+        return True
+
+    def capable(self, cls, f, prefix, stack):
+        ctx, ix = self.ctx, self.ctx.index
+        if len(stack) >= self.MAX_DEPTH or (cls.key, f.key) in stack:
+            return False
+        stack = stack + [(cls.key, f.key)]
+        g = rcfg(ctx, f)
+        T = set()
+        normal = g.reachable([g.entry], edge_ok=no_exc)   # handlers are not part of the normal path
+        for n in g.nodes:
+            if n.id not in normal:
+                continue
+            for c in own_calls(n):
+                if _is_reset_effect(c):
+                    T.add(n.id)
+                    break
+                if self.call_capable(cls, f, c, prefix, stack):
+                    T.add(n.id)
+                    break
+        if not T:
+            return False
+        pred = {}
+        for a, outs in g.succ.items():
+            for b, lab in outs:
+                if lab != "exc":
+                    pred.setdefault(b, []).append(a)
+
+        def back(starts):
+            seen, todo = set(starts), list(starts)
+            while todo:
+                x = todo.pop()
+                for p in pred.get(x, ()):
+                    if p not in seen:
+                        seen.add(p)
+                        todo.append(p)
+            return seen
+        can_t = back(T)
+        to_exit = back([g.exit])
+        pre = g.reachable([g.entry], avoid=T, edge_ok=no_exc)
+        if g.entry not in can_t:
+            return False
+        for a in sorted(pre):
+            if a not in can_t or a in T:
+                continue
+            for b, lab in g.succ[a]:
+                if lab == "exc" or b in can_t or b not in to_exit:
+                    continue
+                n = g.nodes[a]
+                oc = outcome(g, a, lab)
+                if n.kind == "test" and oc is not None:
+                    atoms = test_atoms(n.stmt.test, oc == "true")
+                    label = ", ".join(f"{t}={p}" for t, p in atoms)
+                else:
+                    atoms = []
+                    label = f"{n.kind}:{n.describe().split(' ', 1)[-1]}"
+                key = f"{f.key}:skips-reset[{label}]"
+                if key in self.skips:
+                    continue
+                w = g.witness([g.entry], [a], avoid=T, edge_ok=no_exc) or [a]
+                w2 = g.witness([b], [g.exit], edge_ok=no_exc) or []
+                path = [f"in {f.qualname} (self = {prefix}):"] + g.describe_path(list(w) + [b] + list(w2)[1:])
+                dom = [f"{t}={p}" for tt, pp in g.edge_guards(a) for t, p in test_atoms(tt, pp)]
+                self.skips[key] = dict(
+                    label=label, atoms=[(_rebase(t, prefix), p) for t, p in atoms], fi=f,
+                    loc=f"{f.module.path}:{getattr(n.stmt, 'lineno', f.node.lineno)}", path=path,
+                    when=", ".join(dom + [label]))
+        return True
+
+
+def _reset_claims(ctx):
+    """[(FuncInfo, call)]: calls in the package that tell the pool `the transaction was already
+    reset` with a value that is neither False nor a forwarded parameter."""
+    ix = ctx.index
+    out = []
+    for m in ix.all_modules():
+        if not any(k in m.source for k in CLAIM_KEYWORDS):
+            continue
+        for fi in ix.all_functions(m):
+            if fi.type_only:
+                continue
+            for c in calls_in(fi.node):
+                for k in c.keywords:
+                    if k.arg in CLAIM_KEYWORDS:
+                        v = k.value
+                        if isinstance(v, ast.Constant) and v.value is False:
+                            continue
+                        if isinstance(v, ast.Name) and v.id in fi.params:
+                            continue
+                        out.append((fi, c, v))
+    seen, uniq = set(), []
+    for fi, c, v in out:
+        if id(c) not in seen:
+            seen.add(id(c))
+            uniq.append((fi, c, v))
+    return uniq
+
+
+# floor: today 4 instances (1 claim site + 3 bypass branches); only the claim-site instance is mandatory -- the
+# number of bypass branches legitimately shrinks when one is removed by a fix, and a backed claim implies that a
+# DBAPI effect call was found (the rule cannot be blind and pass).
+@R.rule("C24-R6", floor=1, template="T-PATH",
+        desc="every site that tells the pool `transaction already reset` is dominated by a call that reaches "
+             "dialect.do_rollback/do_commit on every normal path (followed through the call graph with dynamic "
+             "dispatch); each branch that bypasses the DBAPI call is either implied false by the guard of the "
+             "claim, or a frozen `no live connection` case")
+def r6(ctx):
+    ix = ctx.index
+    claims = _reset_claims(ctx)
+    ctx.require(claims, "no call passes transaction_reset / transaction_was_reset = <claim> any more")
+    chain = _ResetChain(ctx)
+    for fi, call, val in claims:
+        ctx.require(is_true(val), f"{fi.key}: reset claim value `{unparse(val)}` is not the constant True "
+                                  "(guard the call instead; value-dependent claims are not understood)")
+        ctx.require(fi.cls is not None, f"{fi.key}: reset claim outside a class")
+        g = ctx.cfg(fi)
+        claim_nodes = [n.id for n in g.nodes if any(c is call for c in own_calls(n))]
+        ctx.require(claim_nodes, f"{fi.key}: claim call not found in the CFG")
+        backing = []   # (node, prefix)
+        for n in g.nodes:
+            for c in own_calls(n):
+                if c is call:
+                    continue
+                if chain.call_capable(fi.cls, fi, c, "self", [(fi.cls.key, fi.key)]):
+                    backing.append((n.id, None))
+        if not backing:
+            # Nothing here can be followed to a DBAPI rollback.  That is a definite finding only when another rule
+            # (C24-R3, on the same function) has independently established that the transaction is not closed
+            # before the claim; otherwise the call graph may simply not be resolvable any more: unknown, not a violation.
+            corroborated = any(i.verdict == "violation" and i.rule == "C24-R3" and i.key.startswith(fi.key + ":")
+                               for i in ctx.instances)
+            ctx.require(corroborated,
+                        f"{fi.key}: no call in this function can be followed to dialect.do_rollback()/do_commit(): "
+                        "either the rollback chain behind the `transaction already reset` claim is broken, or the "
+                        "call graph (self.m() / annotated self.attr.m()) can no longer be resolved")
+            ctx.violation(fi.key + ":reset-claim-backed",
+                          "the pool is told the transaction was already reset, but nothing in this function reaches "
+                          "dialect.do_rollback()/do_commit()", fi.loc)
+            continue
+        w = None
+        dominating = []
+        ps = PathSense(g)
+        for cn in claim_nodes:
+            dominating = [b for b, _ in backing if ps.witness([g.entry], [cn], avoid=[b]) is None]
+            if not dominating:
+                w = ps.witness([g.entry], [cn], avoid=[b for b, _ in backing]) or [g.nodes[cn].describe()]
+                break
+        key = fi.key + ":reset-claim-backed"
+        ctx.check(w is None, key,
+                  "the pool is told the transaction was already reset, but no call that can reach "
+                  "dialect.do_rollback()/do_commit() precedes this on every path",
+                  "claim dominated by " + ", ".join(sorted({g.nodes[b].describe() for b in dominating})), fi.loc, w)
+        # what is known when the claim is made: dominating branch outcomes, locals expanded to their definitions
+        facts = set()
+        bnodes = [b for b, _ in backing]
+        for cn in claim_nodes:
+            for t, pol in g.edge_guards(cn):
+                for txt, p in test_atoms(t, pol):
+                    facts.add((txt, p))
+                    if not (p and txt.isidentifier()):
+                        continue
+                    defs = [(v, st) for nm, v, st in name_stores(fi.node) if nm == txt and v is not None]
+                    live = [(v, st) for v, st in defs if not is_false(v)]
+                    per_def = []
+                    for v, st in live:
+                        dn = g.nodes_for(st)
+                        after = any(d in g.reachable(bnodes, include_starts=False) for d in dn)
+                        per_def.append(set() if (is_true(v) or after) else set(test_atoms(v, True)))
+                    if per_def:
+                        facts |= set.intersection(*per_def)
+    for key, (msg, loc) in sorted(chain.partial.items()):
+        ctx.violation(key, msg + " although the caller tells the pool the transaction was reset", loc)
+    for key, s in sorted(chain.skips.items()):
+        contradicted = [(t, p) for t, p in s["atoms"] if (t, not p) in facts]
+        if contradicted:
+            ctx.ok(key, "bypass impossible when the claim is made: the claim is guarded by "
+                        + ", ".join(f"{t}={not p}" for t, p in contradicted))
+        elif key in SKIP_OK:
+            ctx.ok(key, "frozen: " + SKIP_OK[key], nontrivial=False)
+        else:
+            ctx.violation(
+                key,
+                f"when {s['when']}, {s['fi'].qualname} returns without reaching the DBAPI rollback/commit "
+                f"({'/'.join(sorted(RESET_EFFECTS))}), yet the caller then tells the pool the transaction was "
+                "already reset (transaction_reset=True) so the pool skips its own rollback-on-return: the DBAPI "
+                "connection is pooled with the previous user's transaction open",
+                s["loc"], s["path"])
+
+
 # ---------------------------------------------------------------------- self-test battery
 _RESET_CALL = (
     "            fairy._reset(\n"
@@ -375,3 +756,84 @@ R.mutant("benign-checkin-rename-finalizer", POOL,
 R.mutant("benign-reset-reorder-echo", POOL,
          sub("            if self._echo:\n                pool.logger.debug(\n                    \"Connection %s commit-on-return\",\n                    self.dbapi_connection,\n                )\n            pool._dialect.do_commit(self)\n",
              "            pool._dialect.do_commit(self)\n            if self._echo:\n                pool.logger.debug(\n                    \"Connection %s commit-on-return\",\n                    self.dbapi_connection,\n                )\n"), None)
+
+# ---- added by str-j (adversarial seeds C24_1, C24_2; observation `failing commit then close`)
+_REGISTER = (
+    "        connection.connection._connection_record.finalize_callback.append(\n"
+    "            functools.partial(self._reset_characteristics, characteristics)\n"
+    "        )\n"
+)
+# seed C24_2: "de-duplicated" registration -- only when no finaliser is pending yet (through a local alias)
+R.mutant("characteristics-finaliser-deduped", DEF,
+         sub(_REGISTER,
+             "        callbacks = connection.connection._connection_record.finalize_callback\n"
+             "        if not callbacks:\n"
+             "            callbacks.append(\n"
+             "                functools.partial(self._reset_characteristics, characteristics)\n"
+             "            )\n"), "C24-R4")
+R.mutant("characteristics-finaliser-only-transactional-names", DEF,
+         sub("functools.partial(self._reset_characteristics, characteristics)",
+             "functools.partial(self._reset_characteristics, [n for n, o, _ in characteristic_values if o.transactional])"),
+         "C24-R4")
+R.mutant("benign-characteristics-finaliser-through-alias", DEF,
+         sub(_REGISTER,
+             "        callbacks = connection.connection._connection_record.finalize_callback\n"
+             "        callbacks.append(functools.partial(self._reset_characteristics, tuple(characteristics)))\n"), None)
+# seed C24_1: Connection._rollback_impl decides from Connection-level options not to call the driver
+_RB_LOG = (
+    "            if self._echo:\n"
+    "                if self._is_autocommit_isolation():\n"
+    "                    if self.dialect.skip_autocommit_rollback:\n"
+    "                        self._log_info(\n"
+    "                            \"ROLLBACK will be skipped by \"\n"
+    "                            \"skip_autocommit_rollback\"\n"
+    "                        )\n"
+    "                    else:\n"
+    "                        self._log_info(\n"
+    "                            \"ROLLBACK using DBAPI connection.rollback(); \"\n"
+    "                            \"set skip_autocommit_rollback to prevent fully\"\n"
+    "                        )\n"
+    "                else:\n"
+    "                    self._log_info(\"ROLLBACK\")\n"
+)
+_RB_LOG_RESTRUCTURED = (
+    "            if self._is_autocommit_isolation():\n"
+    "                if self.dialect.skip_autocommit_rollback:\n"
+    "                    if self._echo:\n"
+    "                        self._log_info(\n"
+    "                            \"ROLLBACK will be skipped by \"\n"
+    "                            \"skip_autocommit_rollback\"\n"
+    "                        )\n"
+    "%s"
+    "                elif self._echo:\n"
+    "                    self._log_info(\n"
+    "                        \"ROLLBACK using DBAPI connection.rollback(); \"\n"
+    "                        \"set skip_autocommit_rollback to prevent fully\"\n"
+    "                    )\n"
+    "            elif self._echo:\n"
+    "                self._log_info(\"ROLLBACK\")\n"
+)
+R.mutant("rollback-impl-returns-early-on-connection-level-autocommit", ENG,
+         sub(_RB_LOG, _RB_LOG_RESTRUCTURED % "                    return\n"), "C24-R6")
+R.mutant("benign-rollback-impl-logging-restructured", ENG, sub(_RB_LOG, _RB_LOG_RESTRUCTURED % ""), None)
+R.mutant("rollback-twophase-only-when-prepared", ENG,
+         sub("        if self._still_open_and_dbapi_connection_is_valid:\n            assert isinstance(self._transaction, TwoPhaseTransaction)\n            try:\n                self.engine.dialect.do_rollback_twophase(",
+             "        if self._still_open_and_dbapi_connection_is_valid and is_prepared:\n            assert isinstance(self._transaction, TwoPhaseTransaction)\n            try:\n                self.engine.dialect.do_rollback_twophase("),
+         "C24-R6")
+R.mutant("close-closes-only-an-active-transaction", ENG,
+         sub("            self._transaction.close()\n            skip_reset = True\n",
+             "            if self._transaction.is_active:\n                self._transaction.close()\n            skip_reset = True\n"),
+         "C24-R6")
+R.mutant("twophase-do-close-only-detaches", ENG,
+         sub("    def _connection_begin_impl(self) -> None:\n        self.connection._begin_twophase_impl(self)\n",
+             "    def _connection_begin_impl(self) -> None:\n        self.connection._begin_twophase_impl(self)\n\n"
+             "    def _do_close(self) -> None:\n        self._deactivate_from_connection()\n        self.connection._transaction = None\n"),
+         "C24-R6")
+R.mutant("benign-rollback-impl-extracted-helper", ENG,
+         sub("            try:\n                self.engine.dialect.do_rollback(self.connection)\n            except BaseException as e:\n                self._handle_dbapi_exception(e, None, None, None, None)\n\n    def _commit_impl(self) -> None:\n",
+             "            self._emit_rollback()\n\n    def _emit_rollback(self) -> None:\n        try:\n            self.engine.dialect.do_rollback(self.connection)\n        except BaseException as e:\n            self._handle_dbapi_exception(e, None, None, None, None)\n\n    def _commit_impl(self) -> None:\n"),
+         None)
+R.mutant("benign-close-impl-renamed-flag", ENG,
+         sub("    def _close_impl(self, try_deactivate: bool = False) -> None:\n        try:\n            if self.is_active:\n                self._connection_rollback_impl()\n",
+             "    def _close_impl(self, try_deactivate: bool = False) -> None:\n        try:\n            active = self.is_active\n            self.connection._log_debug(\"closing %r\", self) if False else None\n            if self.is_active:\n                self._connection_rollback_impl()\n"),
+         None)
